@@ -97,6 +97,7 @@ func (f *FuncVC) allocObject(st *State, t types.Type, ptrTy types.Type) *Val {
 			h := f.heap(st, hn, sort)
 			f.setHeap(st, hn, sort, store(h, id, zeroLeaf(l)))
 		}
+		f.initGhosts(st, t, id)
 		return &Val{K: KPtr, Ty: ptrTy, T: id}
 	}
 	et := t
@@ -859,4 +860,37 @@ func (f *FuncVC) panicInstr(st *State, x *ssa.Panic) {
 		return
 	}
 	f.oblige(st, "panic", src, "false")
+}
+
+// initGhosts zero-initialises the ghost state attached to a freshly allocated
+// object of named struct type t.
+func (f *FuncVC) initGhosts(st *State, t types.Type, id string) {
+	named, ok := t.(*types.Named)
+	if !ok || named.Obj().Pkg() == nil {
+		return
+	}
+	for _, key := range sortedKeys(f.eng.cs.Specs) {
+		sp := f.eng.cs.Specs[key]
+		if !sp.Ghost || len(sp.Params) != 1 || !strings.Contains(key, ".") {
+			continue
+		}
+		pt := strings.TrimPrefix(exprString(sp.Params[0].Type), "*")
+		if k := strings.LastIndex(pt, "."); k >= 0 {
+			pt = pt[k+1:]
+		}
+		if pt != named.Obj().Name() || !strings.HasSuffix(named.Obj().Pkg().Path(), sp.PkgPath) {
+			continue
+		}
+		rs := "int"
+		if sp.ResType != nil {
+			rs = exprString(sp.ResType)
+		}
+		switch rs {
+		case "bool":
+			f.setHeap(st, "G:"+sp.Name, "(Array Int Bool)", store(f.heap(st, "G:"+sp.Name, "(Array Int Bool)"), id, "false"))
+		case "seq":
+		default:
+			f.setHeap(st, "G:"+sp.Name, "(Array Int Int)", store(f.heap(st, "G:"+sp.Name, "(Array Int Int)"), id, "0"))
+		}
+	}
 }
